@@ -1,23 +1,36 @@
 /-
-  Spec.SqlLex — the part of PostgreSQL's lexer (src/backend/parser/scan.l, standard_conforming_strings = on)
-  that decides how an SQL dump tokenises.  Byte level: every delimiter of the lexer is ASCII and never occurs
-  inside a UTF-8 multi-byte sequence, so lexing bytes is exact for UTF-8 text.  Knows nothing about pgread.
+  Spec.SqlLex — the part of PostgreSQL's lexer (src/backend/parser/scan.l) that decides how an SQL dump tokenises,
+  restricted to text that reads THE SAME under both settings of `standard_conforming_strings` (the dump cannot know the
+  setting of the session that will run it).  Byte level: every delimiter of the lexer is ASCII and never occurs inside a
+  multi-byte sequence of UTF-8 (or of any other server encoding), so lexing bytes is exact for such text.
+  Knows nothing about pgread.
 
   Tokens:  `--` comment (text up to, not including, the line end; a line ends at LF *or CR*),
            `/* … */` comment (nesting), bare word (identifier or keyword: `[A-Za-z_\200-\377][A-Za-z_0-9$\200-\377]*`,
            ASCII letters folded to lower case), quoted identifier (`"…"`, `""` = one quote), string constant
-           (`'…'`, `''` = one quote, backslash ordinary), dollar-quoted string (`$tag$ … $tag$`, ends at the FIRST
-           occurrence of the opening delimiter), number (`digits[.digits][e[+-]digits]` / `.digits…`), `$n` parameter,
+           (`'…'`, `''` = one quote, no backslash inside — see below), escape string constant (`E'…'` or `e'…'`: `''` = one
+           quote, two backslashes = one backslash; scan.l enters state xe for it whatever standard_conforming_strings is),
+           dollar-quoted string (`$tag$ … $tag$`, ends at the FIRST occurrence of the opening delimiter),
+           number (`digits[.digits][e[+-]digits]` / `.digits…`), `$n` parameter,
            operators (maximal run of operator characters, cut before `--` and `/*`, trailing `+`/`-` rule of scan.l),
-           and the self-delimiting characters `, ( ) [ ] . ; :`.
+           and the self-delimiting characters `, ( ) [ ] . ; :` (each a token of its own: scan.l's two-character tokens
+           `::` `..` `:=` are reported as two such tokens — `Spec.SqlExport` accepts none of them anywhere).
 
   Where scan.l has behaviour this definition does not reproduce, the lexer FAILS (returns `none`) instead of guessing,
-  so it can be used as an oracle: text it accepts tokenises in PostgreSQL exactly as reported.  Those cases are
-    * a string constant followed by white space containing a newline and another quote (SQL string continuation),
-    * the prefixed forms  E'…'  B'…'  X'…'  N'…'  U&'…'  U&"…"  (a word e/b/x/n directly followed by a quote, u followed by &),
+  so it can be used as an oracle: text it accepts tokenises in PostgreSQL as reported, with standard_conforming_strings
+  on or off.  Those cases are
+    * a plain string constant `'…'` that contains a backslash: scan.l reads it in state xq (backslash ordinary) when
+      standard_conforming_strings is on and in state xe (backslash escapes: backslash-quote is a quote and the constant
+      goes on) when it is off, so such text has no reading of its own,
+    * inside `E'…'` every backslash sequence other than the doubled backslash (backslash-quote depends on
+      backslash_quote; the letter, octal, hex and unicode escapes are not reproduced here),
+    * a string constant followed by white space and `--` comments containing a newline, and then another quote (SQL string
+      continuation: scan.l glues the two constants),
+    * the prefixed forms  B'…'  X'…'  N'…'  U&'…'  U&"…"  (a word b/x/n directly followed by a quote, u followed by &),
     * a zero-length quoted identifier `""` (an error in PostgreSQL too),
     * a number directly followed by an identifier character ("trailing junk", an error since PostgreSQL 15),
-    * a `$` that starts neither a parameter nor a dollar-quote delimiter, NUL, and any other byte scan.l rejects,
+    * a `$` that starts neither a parameter nor a dollar-quote delimiter, NUL, VT outside a token (white space only since
+      PostgreSQL 16), and any other byte scan.l rejects,
     * anything unterminated.
   Identifier truncation to 63 bytes (NAMEDATALEN) is not modelled: stored names are at most 63 bytes.
 -/
@@ -38,7 +51,9 @@ inductive Tok where
   | op (text : Bytes)            -- operator or self-delimiting character
 deriving DecidableEq, Repr, Inhabited
 
-def isSpace (c : UInt8) : Bool := c == 32 || c == 9 || c == 10 || c == 13 || c == 12 || c == 11
+/-- white space of scan.l for PostgreSQL 12–16: space, TAB, LF, CR, FF.  (VT became white space in PostgreSQL 16 and is a
+syntax error before: it is refused, like every byte whose reading depends on the version.) -/
+def isSpace (c : UInt8) : Bool := c == 32 || c == 9 || c == 10 || c == 13 || c == 12
 def isNewline (c : UInt8) : Bool := c == 10 || c == 13
 def isDigit (c : UInt8) : Bool := 48 ≤ c && c ≤ 57
 def isUpper (c : UInt8) : Bool := 65 ≤ c && c ≤ 90
@@ -76,6 +91,21 @@ def scanQuoted (q : UInt8) : Bytes → Option (Bytes × Bytes)
       else some ([], c2 :: t)
     else (scanQuoted q (c2 :: t)).map fun r => (c :: r.1, r.2)
 
+/-- body of an escape string constant `E'…'` after the opening quote (scan.l state xe): a doubled quote stands for one
+quote, a doubled backslash for one backslash, a single quote ends the token; every other use of a backslash is refused
+(see the header).  Returns the decoded body and what follows the closing quote. -/
+def scanEscaped : Bytes → Option (Bytes × Bytes)
+  | [] => none
+  | [c] => if c = 39 then some ([], []) else none
+  | c :: c2 :: t =>
+    if c = 39 then
+      if c2 = 39 then (scanEscaped t).map fun r => (39 :: r.1, r.2)
+      else some ([], c2 :: t)
+    else if c = 92 then
+      if c2 = 92 then (scanEscaped t).map fun r => (92 :: r.1, r.2)
+      else none
+    else (scanEscaped (c2 :: t)).map fun r => (c :: r.1, r.2)
+
 def isPrefix : Bytes → Bytes → Bool
   | [], _ => true
   | _ :: _, [] => false
@@ -97,10 +127,20 @@ def scanCComment : Nat → Bytes → Option Bytes
     else if c = 47 ∧ c2 = 42 then scanCComment (d + 1) t
     else scanCComment d (c2 :: t)
 
-/-- does `bs` begin with white space that contains a newline and is followed by a quote? (string continuation) -/
-def contAfterString (bs : Bytes) : Bool :=
-  let ws := spanB isSpace bs
-  ws.1.any isNewline && ws.2.head? == some 39
+/-- `contScan inComment seenNewline bs`: does `bs` continue a string constant?  scan.l's `quotecontinue` is white space and
+`--` comments containing at least one newline, followed by a quote; then the next constant is glued to the previous one.
+(Slightly wider than scan.l, which wants the comments before the first newline to end at it: refusing more is harmless.) -/
+def contScan : Bool → Bool → Bytes → Bool
+  | _, _, [] => false
+  | true, nl, c :: t => if isNewline c then contScan false true t else contScan true nl t
+  | false, nl, c :: t =>
+    if isSpace c then contScan false (nl || isNewline c) t
+    else if c = 39 then nl
+    else if c = 45 ∧ t.head? == some 45 then contScan true nl t
+    else false
+
+/-- does `bs` begin with white space / comments that contain a newline and are followed by a quote? (string continuation) -/
+def contAfterString (bs : Bytes) : Bool := contScan false false bs
 
 /-- numeric literal starting at a digit or at `.digit`:  digits [. digits*] [e [+-] digits] -/
 def scanNumber (bs : Bytes) : Bytes × Bytes :=
@@ -163,7 +203,7 @@ def next : Bytes → Option (Option Tok × Bytes)
       (scanCComment 0 (t.drop 1)).map fun rest => (some .ccomment, rest)
     else if c = 39 then
       match scanQuoted 39 t with
-      | some (s, rest) => if contAfterString rest then none else some (some (.str s), rest)
+      | some (s, rest) => if s.contains 92 || contAfterString rest then none else some (some (.str s), rest)
       | none => none
     else if c = 34 then
       match scanQuoted 34 t with
@@ -187,7 +227,11 @@ def next : Bytes → Option (Option Tok × Bytes)
     else if isIdentStart c then
       let r := spanB isIdentCont (c :: t)
       let w := fold r.1
-      if r.2.head? == some 39 ∧ (w = [101] ∨ w = [98] ∨ w = [120] ∨ w = [110]) then none
+      if r.2.head? == some 39 ∧ w = [101] then
+        match scanEscaped (r.2.drop 1) with
+        | some (s, rest) => if contAfterString rest then none else some (some (.str s), rest)
+        | none => none
+      else if r.2.head? == some 39 ∧ (w = [98] ∨ w = [120] ∨ w = [110]) then none
       else if r.2.head? == some 38 ∧ w = [117] then none
       else some (some (.word w), r.2)
     else if isSelfOnly c then some (some (.op [c]), t)
